@@ -266,7 +266,9 @@ theorem unpackRHeader_noFuel (msg : Bytes) (off : Nat) : NoFuel (unpackRHeader m
         · rename_i ttl o4 _
           split
           · rename_i e he; exact (u16At_noFuel msg o4).of_error he
-          · exact noFuel_ok _
+          · split
+            · intro hf; cases hf
+            · exact noFuel_ok _
 
 theorem unpackResource_noFuel (msg : Bytes) (off : Nat) : NoFuel (unpackResource msg off) := by
   unfold unpackResource
